@@ -20,13 +20,31 @@
 //!
 //! `links stress <seed> <runs> <iters>`: counters under real threads (see `stress`).
 use bytes::{Bytes, BytesMut};
-use futures::FutureExt;
+use futures::future::BoxFuture;
+use futures::{FutureExt, SinkExt};
+use parking_lot::Mutex;
 use serde_json::{json, Value};
 use std::collections::HashMap;
 use std::future::Future;
 use std::num::NonZeroUsize;
 use std::pin::Pin;
 use std::sync::atomic::{AtomicBool, AtomicU64, Ordering};
+use std::sync::Arc;
+use std::time::Duration;
+use swimos_agent_protocol::encoding::lane::{RawValueLaneRequestDecoder, RawValueLaneResponseEncoder};
+use swimos_agent_protocol::LaneResponse;
+use swimos_api::address::RelativeAddress;
+use swimos_api::agent::{Agent, AgentConfig, AgentContext, AgentInitResult, LaneConfig, WarpLaneKind};
+use swimos_messages::protocol::{RawRequestMessageEncoder, RequestMessage};
+use swimos_runtime::agent::{
+    AgentAttachmentRequest, AgentRouteChannels, AgentRouteDescriptor, AgentRouteTask, AgentRuntimeConfig,
+    CombinedAgentConfig, NodeReporting, UplinkReporterRegistration,
+};
+use swimos_utilities::byte_channel::ByteWriter;
+use swimos_utilities::routing::RouteUri;
+use swimos_utilities::trigger;
+use tokio::sync::mpsc;
+use tokio_util::codec::{FramedRead, FramedWrite};
 use std::task::{Context, Poll};
 use swimos_messages::protocol::{Notification, RawResponseMessageDecoder};
 use swimos_runtime::agent::reporting::{UplinkReportReader, UplinkReporter};
@@ -360,10 +378,290 @@ fn run_w(case: &Value) -> Value {
     json!({ "obs": obs })
 }
 
+
+// ------------------------------------------------------------------------------------ level R
+
+/// Level "R": the whole agent runtime (`AgentRouteTask::run_agent`: attachment, read and write tasks
+/// on a paused single-threaded tokio runtime) with real `NodeReporting`, a fake agent that only owns the
+/// lane channels, and remotes that speak the real envelope protocol.  `sleep(1ns)` under the paused
+/// clock is an exact quiescence barrier, taken after every action.  Nothing of the registry is visible
+/// here: the observations are the snapshots of the introspection readers and which remotes the runtime
+/// still holds (their completion promise is unresolved).
+struct FakeAgent {
+    nl: usize,
+    lanes: Arc<Mutex<Vec<Option<(ByteWriter, ByteReader)>>>>,
+    done: Arc<Mutex<Option<trigger::Receiver>>>,
+}
+
+impl Agent for FakeAgent {
+    fn run(
+        &self,
+        _route: RouteUri,
+        _route_params: HashMap<String, String>,
+        _config: AgentConfig,
+        context: Box<dyn AgentContext + Send>,
+    ) -> BoxFuture<'static, AgentInitResult> {
+        let nl = self.nl;
+        let lanes = self.lanes.clone();
+        let done = self.done.lock().take().expect("harness: the fake agent is started once");
+        async move {
+            for l in 1..=nl {
+                let config = LaneConfig { transient: true, ..Default::default() };
+                let io = context
+                    .add_lane(&format!("lane{}", l), WarpLaneKind::Value, config)
+                    .await
+                    .expect("harness: registering a lane failed");
+                lanes.lock().push(Some(io));
+            }
+            let task: BoxFuture<'static, Result<(), swimos_api::error::AgentTaskError>> = async move {
+                let _context = context; // dropping the context would stop the agent
+                let _ = done.await; // the agent ends when the harness says so (after the runtime was told to stop)
+                Ok(())
+            }
+            .boxed();
+            Ok(task)
+        }
+        .boxed()
+    }
+}
+
+struct RRemote {
+    tx: Option<FramedWrite<ByteWriter, RawRequestMessageEncoder>>,
+    rem: Remote,
+    attached: bool,
+}
+
+async fn settle() {
+    tokio::time::sleep(Duration::from_nanos(1)).await;
+}
+
+async fn run_r_async(case: Value) -> Value {
+    let cfg = &case["cfg"];
+    let nl = cfg["nl"].as_u64().unwrap_or(3) as usize;
+    let nr = cfg["nr"].as_u64().unwrap_or(3) as usize;
+    let hours = Duration::from_secs(3600 * 24);
+    let prune = Duration::from_secs(60);
+    let runtime_config = AgentRuntimeConfig {
+        inactive_timeout: hours,
+        prune_remote_delay: prune,
+        shutdown_timeout: Duration::from_secs(5),
+        item_init_timeout: Duration::from_secs(5),
+        ..Default::default()
+    };
+    let config = CombinedAgentConfig { agent_config: AgentConfig::default(), runtime_config };
+    let lanes_io = Arc::new(Mutex::new(Vec::new()));
+    let (agent_done_tx, agent_done_rx) = trigger::trigger();
+    let mut agent_done_tx = Some(agent_done_tx);
+    let agent = FakeAgent { nl, lanes: lanes_io.clone(), done: Arc::new(Mutex::new(Some(agent_done_rx))) };
+    let (att_tx, att_rx) = mpsc::channel(16);
+    let (_http_tx, http_rx) = mpsc::channel(16);
+    let (link_tx, _link_rx) = mpsc::channel(16);
+    let (stop_tx, stop_rx) = trigger::trigger();
+    let mut stop_tx = Some(stop_tx);
+    let agg = UplinkReporter::default();
+    let agg_reader = Some(agg.reader());
+    let (reg_tx, mut reg_rx) = mpsc::channel::<UplinkReporterRegistration>(16);
+    let reporting = NodeReporting::new(Uuid::from_u128(1), agg, reg_tx);
+    let task = AgentRouteTask::new(
+        &agent,
+        AgentRouteDescriptor { identity: Uuid::from_u128(1), route: "/node".parse().unwrap(), route_params: HashMap::new() },
+        AgentRouteChannels::new(att_rx, http_rx, link_tx),
+        stop_rx,
+        config,
+        Some(reporting),
+    );
+    let handle = tokio::spawn(task.run_agent().map(|r| r.map_err(|e| e.to_string())));
+    // the introspection side: collect the lane registrations (each lane registers while it is added)
+    let mut readers: Vec<Option<UplinkReportReader>> = vec![None; nl];
+    let lane_of = |name: &str| -> i64 { name.strip_prefix("lane").and_then(|s| s.parse::<i64>().ok()).unwrap_or(0) };
+    for _ in 0..(2 * nl + 4) {
+        settle().await;
+        while let Ok(reg) = reg_rx.try_recv() {
+            let l = lane_of(reg.lane_name.as_str());
+            if l >= 1 && (l as usize) <= nl {
+                readers[l as usize - 1] = Some(reg.reader);
+            }
+        }
+    }
+    if readers.iter().any(|r| r.is_none()) || lanes_io.lock().len() != nl {
+        panic!("harness: the fake agent did not come up ({} lanes, {} readers)", lanes_io.lock().len(), readers.iter().filter(|r| r.is_some()).count());
+    }
+    let mut lane_tx: Vec<FramedWrite<ByteWriter, RawValueLaneResponseEncoder>> = Vec::new();
+    let mut lane_rx: Vec<FramedRead<ByteReader, RawValueLaneRequestDecoder>> = Vec::new();
+    for io in lanes_io.lock().iter_mut() {
+        let (tx, rx) = io.take().unwrap();
+        lane_tx.push(FramedWrite::new(tx, RawValueLaneResponseEncoder::default()));
+        lane_rx.push(FramedRead::new(rx, RawValueLaneRequestDecoder::default()));
+    }
+    let mut remotes: HashMap<u64, RRemote> = HashMap::new();
+    let mut obs = Vec::new();
+    let mut seq = 0u64;
+    let mut stopped = false;
+
+    // first observation: the state after start-up (reported as one step per lane by the driver)
+    for a in case["acts"].as_array().unwrap() {
+        let k = a["k"].as_str().unwrap();
+        let mut o = json!({});
+        match k {
+            "lane" | "nop" => {} // every lane is registered at start-up
+            "att" => {
+                let r = geti(a, "r");
+                let (req_tx, req_rx) = byte_channel(NonZeroUsize::new(1 << 16).unwrap());
+                let (resp_tx, resp_rx) = byte_channel(NonZeroUsize::new(1 << 16).unwrap());
+                let (ptx, prx) = promise::promise();
+                let (on_tx, on_rx) = trigger::trigger();
+                let _ = att_tx.send(AgentAttachmentRequest::with_confirmation(rid(r), (resp_tx, req_rx), ptx, on_tx)).await;
+                settle().await;
+                let attached = on_rx.now_or_never().map(|r| r.is_ok()).unwrap_or(false);
+                remotes.insert(r, RRemote {
+                    tx: Some(FramedWrite::new(req_tx, RawRequestMessageEncoder)),
+                    rem: Remote { reader: Some(resp_rx), buf: BytesMut::new(), done: prx },
+                    attached,
+                });
+            }
+            "link" | "unlink" | "sync" | "cmd" | "unk" => {
+                let r = geti(a, "r");
+                let lane = if k == "unk" { "nosuchlane".to_string() } else { format!("lane{}", geti(a, "l")) };
+                if let Some(tx) = remotes.get_mut(&r).and_then(|x| x.tx.as_mut()) {
+                    let path = RelativeAddress::new("/node", lane.as_str());
+                    seq += 1;
+                    let body = format!("{}", seq);
+                    let msg: RequestMessage<&str, &[u8]> = match k {
+                        "link" | "unk" => RequestMessage::link(rid(r), path),
+                        "sync" => RequestMessage::sync(rid(r), path),
+                        "unlink" => RequestMessage::unlink(rid(r), path),
+                        _ => RequestMessage::command(rid(r), path, body.as_bytes()),
+                    };
+                    let mut fut = Box::pin(tx.send(msg));
+                    let mut done = false;
+                    for _ in 0..4 {
+                        if futures::poll!(fut.as_mut()).is_ready() {
+                            done = true;
+                            break;
+                        }
+                    }
+                    if !done {
+                        panic!("harness: a request could not be written to a 64k channel");
+                    }
+                } else {
+                    o["skipped"] = json!(true);
+                }
+            }
+            "ev" => {
+                let l = geti(a, "l") as usize;
+                let t = geti(a, "t");
+                seq += 1;
+                let body = format!("{}", seq);
+                let msg: LaneResponse<&[u8]> = if t == 0 {
+                    LaneResponse::StandardEvent(body.as_bytes())
+                } else {
+                    LaneResponse::SyncEvent(rid(t), body.as_bytes())
+                };
+                let mut fut = Box::pin(lane_tx[l - 1].send(msg));
+                let mut done = false;
+                for _ in 0..4 {
+                    if futures::poll!(fut.as_mut()).is_ready() {
+                        done = true;
+                        break;
+                    }
+                }
+                if !done {
+                    panic!("harness: a lane response could not be written");
+                }
+            }
+            "close" => {
+                if let Some(rem) = remotes.get_mut(&geti(a, "r")) {
+                    rem.rem.reader = None;
+                }
+            }
+            "tick" => {
+                // past the prune delay: every remote without links is pruned
+                tokio::time::sleep(prune + Duration::from_secs(1)).await;
+            }
+            "stop" => {
+                if let Some(tx) = stop_tx.take() {
+                    tx.trigger();
+                }
+                stopped = true;
+            }
+            other => panic!("harness: bad R action {}", other),
+        }
+        settle().await;
+        settle().await;
+        // the fake agent consumes whatever the runtime sent to its lanes
+        for rx in lane_rx.iter_mut() {
+            use futures::StreamExt;
+            for _ in 0..64 {
+                match futures::poll!(rx.next()) {
+                    Poll::Ready(Some(_)) => {}
+                    _ => break,
+                }
+            }
+        }
+        let mut rxs = Vec::new();
+        let mut att = 0u64;
+        let mut dc = Vec::new();
+        for r in 1..=nr as u64 {
+            let mut frames = Vec::new();
+            let mut gone = false;
+            if let Some(rr) = remotes.get_mut(&r) {
+                drain(&mut rr.rem, &lane_of, &mut frames);
+                match (&mut rr.rem.done).now_or_never() {
+                    Some(Ok(reason)) => {
+                        dc.push(json!([r, reason_str(&reason)]));
+                        gone = true;
+                    }
+                    Some(Err(_)) => gone = true,
+                    None => {
+                        if rr.attached {
+                            att |= 1 << (r - 1);
+                        }
+                    }
+                }
+            }
+            if gone {
+                remotes.remove(&r);
+            }
+            rxs.push(Value::Array(frames));
+        }
+        o["rx"] = json!(rxs);
+        o["att"] = json!(att);
+        o["dc"] = json!(dc);
+        o["s"] = snapshots(a, nl, &readers, &agg_reader);
+        obs.push(o);
+    }
+    if !stopped {
+        if let Some(tx) = stop_tx.take() {
+            tx.trigger();
+        }
+    }
+    settle().await;
+    if let Some(tx) = agent_done_tx.take() {
+        tx.trigger();
+    }
+    drop(lane_tx);
+    drop(lane_rx);
+    drop(att_tx);
+    let res = tokio::time::timeout(Duration::from_secs(60), handle).await;
+    let end = match res {
+        Ok(Ok(Ok(()))) => "ok".to_string(),
+        Ok(Ok(Err(e))) => format!("agent runtime failed: {}", e),
+        Ok(Err(e)) => format!("agent runtime panicked: {}", e),
+        Err(_) => "agent runtime did not stop".to_string(),
+    };
+    json!({ "obs": obs, "end": end })
+}
+
+fn run_r(case: &Value) -> Value {
+    let rt = tokio::runtime::Builder::new_current_thread().enable_time().start_paused(true).build().unwrap();
+    rt.block_on(run_r_async(case.clone()))
+}
+
 pub fn run_case(case: &Value) -> Value {
     match case["cfg"]["level"].as_str().unwrap_or("K") {
         "K" => run_k(case),
         "W" => run_w(case),
+        "R" => run_r(case),
         other => panic!("harness: bad level {}", other),
     }
 }
